@@ -984,7 +984,7 @@ class Tract:
         """
 
         attributes = clean_attributes(attributes)
-        return {att: getattr(self, att, f"{att}: n/a") for att in attributes}
+        return {att: self._get_copied(att) for att in attributes}
 
     def to_list(self, *attributes) -> list:
         """
@@ -996,7 +996,19 @@ class Tract:
         """
 
         attributes = clean_attributes(attributes)
-        return [getattr(self, att, f"{att}: n/a") for att in attributes]
+        return [self._get_copied(att) for att in attributes]
+
+    def _get_copied(self, att):
+        """
+        INTERNAL USE:
+        Get the value of the attribute (or the ``'<name>: n/a'``
+        placeholder). A list or dict is copied, so that the caller may
+        modify what it receives without modifying this ``Tract``.
+        """
+        val = getattr(self, att, f"{att}: n/a")
+        if isinstance(val, (list, dict)):
+            val = val.copy()
+        return val
 
     def quick_desc(self, delim=': ') -> str:
         """
